@@ -10,17 +10,18 @@ EXPLANATION = (
     "preconditions P1/P2 of the relabel walk hold at every call; nested edge edits rewrite ids exactly below the relabelled node "
     "(clause 'track-ids-rewritten-exactly...', which is the frame statement of the property). Local => global ('same id iff same "
     "segment') is bridge lemma M2 (Lean). The relabel walk TrackAnnotator._handle_update_track_ids itself is PROVED against its contract (nested BFS loops, 9+ invariants over ghost visited/frontier sets, "
-    "lemma M3'). BOUNDED STAND-IN (not a proof): bulk assignment at construction, checked natively on every forest up to the stated bound.")
+    "lemma M3'). Base case PROVED too (contracts/bulkids.py): the real bulk assignment at construction (_assign_tracklet_ids / _assign_lineage_ids, _assign_ids, Tracks._set_nodes_attr) gives every node the id 1 + index of its component - components of the graph minus the out-edges of dividing nodes for track ids, of the whole graph for lineage ids -, which yields has_id and T1 / L1 directly and T2 / L2 by the Lean lemmas segment_iff_tracklet_gives_T1_T2 / connected_iff_lineage_gives_L1_L2 from the definition of weakly connected components; the lookups list exactly the nodes per id and the maxima equal the number of components (B1, B2). So the invariant holds after construction and is preserved by every edit. BOUNDED cross-check (not a proof): walk and bulk assignment on every forest up to the stated bound.")
 ASSUMPTIONS = ["the tracklet feature is enabled (otherwise edits do not maintain ids at all)",
                "undo/redo: covered through C01 (inverse restores ids) and C02 (history lands on timeline states)"]
 LEMMAS = ["M2 (T1&T2 => same id iff same segment)", "M2' segment facts used as hypotheses of the entry state and after nested edits",
           "M3 facts of the descendant closure, monotone under edge removal"]
-NOT_UNDER_CONTRACT = ["TrackAnnotator._assign_tracklet_ids (bounded stand-in)"]
+NOT_UNDER_CONTRACT = []
 
 
 def units(tier):
     from contracts import walk
-    return walk.units() + useractions.units(UA_ALL)
+    from contracts import bulkids
+    return bulkids.units() + walk.units() + useractions.units(UA_ALL)
 
 
 def bounded(tier, seed):
